@@ -3,11 +3,40 @@ import OpcuaVerif.Model.C17
 
 namespace OpcuaVerif.C17
 
+/-- key sizes (bytes) of the harness' key pool: 1024, 2048, 2048, 4096 bits -/
+def poolKs (i : Nat) : Nat := [128, 256, 256, 512].getD i 256
+
 structure DState where
   w : World
   policy : Policy
   signer : Nat
   sd : SigData
+  /-- what the signature was made over: (certificate index, nonce) -/
+  made : Option (Nat × Bytes) := Option.none
+
+def policyName : Policy → String
+  | .none => "none" | .basic128Rsa15 => "basic128rsa15" | .basic256 => "basic256"
+  | .basic256Sha256 => "basic256sha256" | .aes128Sha256RsaOaep => "aes128sha256rsaoaep"
+  | .aes256Sha256RsaPss => "aes256sha256rsapss" | .unknown => "unknown"
+
+/-- which input of a verification differs from what was signed (arm tags) -/
+def verifyArms (s : DState) (p : Policy) (k c m : Nat) (nonce : Bytes) (kind : String) : List String :=
+  let base := ["vpol-" ++ policyName p, "vkey-" ++ toString (poolKs k)]
+  match s.made with
+  | Option.none => base ++ ["v-nothing-signed"]
+  | some (c0, n0) =>
+    let diffs :=
+      (if k ≠ s.signer then [if poolKs k = poolKs s.signer then "v-other-signer-same-size" else "v-other-signer"] else []) ++
+      (if c ≠ c0 then ["v-other-cert"] else if m ≠ 0 then ["v-cert-byte-changed"] else []) ++
+      (if nonce = n0 then [] else if nonce.length = n0.length then ["v-nonce-changed-same-length"]
+       else if nonce.length < n0.length then ["v-nonce-shorter"] else ["v-nonce-longer"]) ++
+      (if kind = "none" then [] else ["v-sig-" ++ kind]) ++
+      (if p = s.policy then [] else if p.sigAlg? = s.policy.sigAlg? then ["v-policy-other-name-same-algorithm"]
+       else ["v-policy-other-algorithm"])
+    base ++ (if diffs.isEmpty then ["v-same"] else diffs)
+
+def withArms (res : String) (arms : List String) : String :=
+  if arms.isEmpty then res else res ++ " @@ " ++ ",".intercalate arms.eraseDups
 
 def parsePolicy? (s : String) : Option Policy :=
   if s = "none" then some .none
@@ -19,8 +48,6 @@ def parsePolicy? (s : String) : Option Policy :=
   else if s = "unknown" then some .unknown
   else Option.none
 
-/-- key sizes (bytes) of the harness' key pool: 1024, 2048, 2048, 4096 bits -/
-def poolKs (i : Nat) : Nat := [128, 256, 256, 512].getD i 256
 
 /-- stand-in for the DER bytes of pool certificate `c` with mutation `m` (0 = unchanged):
 equal length and a length prefix, hence prefix-free like DER -/
@@ -46,6 +73,7 @@ def statusName : Status → String
   | .good => "Good"
   | .badSecurityChecksFailed => "BadSecurityChecksFailed"
   | .badUnexpectedError => "BadUnexpectedError"
+  | .badCertificateInvalid => "BadCertificateInvalid"
 
 def strHex (s : String) : String := "s" ++ bytesToHex (s.toUTF8.toList.map (·.toNat))
 
@@ -56,7 +84,8 @@ def dstep (s : DState) (toks : List String) : DState × String :=
   match toks with
   | ["reset", p, k] =>
     match parsePolicy? p, k.toNat? with
-    | some p, some k => ({ w := [], policy := p, signer := k, sd := ⟨Option.none, Option.none⟩ }, "ok")
+    | some p, some k => ({ w := [], policy := p, signer := k, sd := ⟨Option.none, Option.none⟩ },
+        withArms "ok" ["cfg-" ++ policyName p ++ "-" ++ toString (poolKs k)])
     | _, _ => (s, "bad-op")
   | ["create", c, n] =>
     let cert : Option (Option Bytes) := if c = "-" then some Option.none else c.toNat?.map (fun c => some (toyCert c 0))
@@ -67,7 +96,14 @@ def dstep (s : DState) (toks : List String) : DState × String :=
       | .ok (w, sd) =>
         let a := match sd.algorithm with | some u => strHex u | Option.none => "-"
         let l := match sd.signature with | some b => toString b.length | Option.none => "-"
-        ({ s with w := w, sd := sd }, s!"ok alg={a} siglen={l}")
+        let made := match cert, nonce, sd.signature with
+          | some _, some n, some _ => some (c.toNat?.getD 0, n)
+          | _, _, _ => Option.none
+        let arm :=
+          if cert.isNone then "create-null-cert" else if nonce.isNone then "create-null-nonce"
+          else if sd.signature.isNone then "create-no-signature-" ++ policyName s.policy
+          else "create-sign-" ++ policyName s.policy
+        ({ s with w := w, sd := sd, made := made }, withArms s!"ok alg={a} siglen={l}" [arm])
       | .err e => (s, "err " ++ statusName e)
       | .panic => (s, "panic")
     | _, _ => (s, "bad-op")
@@ -76,12 +112,42 @@ def dstep (s : DState) (toks : List String) : DState × String :=
     | some p, some k, some c, some m, some nonce, some prm =>
       match mutSig kind prm s.sd.signature with
       | some sig =>
+        let arms := verifyArms s p k c m nonce kind
         match verify s.w { s.sd with signature := sig } p (some k) (toyCert c m) nonce with
-        | .ok st => (s, "ok " ++ statusName st)
+        | .ok st => (s, withArms ("ok " ++ statusName st) (("verify-" ++ statusName st) :: arms))
         | .err e => (s, "err " ++ statusName e)
-        | .panic => (s, "panic")
+        | .panic => (s, withArms "panic" ("verify-panic" :: arms))
       | Option.none => (s, "bad-op")
     | _, _, _, _, _, _ => (s, "bad-op")
+  | ["vx509", p, tk, c, n] =>
+    -- `verify_x509_identity_token`: the signing certificate comes out of the token (`g` = garbage, `-` = null)
+    match parsePolicy? p, c.toNat?, hexToBytes n with
+    | some p, some c, some nonce =>
+      let tokenKey : Option (Option Nat) :=
+        if tk = "g" ∨ tk = "-" then some Option.none else tk.toNat?.map some
+      match tokenKey with
+      | some tokenKey =>
+        let arm := if tk = "g" then "x509-token-cert-garbage" else if tk = "-" then "x509-token-cert-null" else "x509-token-cert-parses"
+        match verifyX509Token s.w s.sd p tokenKey (toyCert c 0) nonce with
+        | .ok st => (s, withArms ("ok " ++ statusName st) [arm, "x509-" ++ statusName st])
+        | .err e => (s, "err " ++ statusName e)
+        | .panic => (s, withArms "panic" [arm, "x509-panic"])
+      | Option.none => (s, "bad-op")
+    | _, _, _ => (s, "bad-op")
+  | ["signbuf", p, k, len] =>
+    -- `SecurityPolicy::asymmetric_sign` into a caller-supplied buffer of `len` bytes
+    match parsePolicy? p, k.toNat?, len.toNat? with
+    | some p, some k, some len =>
+      let ks := poolKs k
+      let arm := if len < ks then "signbuf-short" else if len = ks then "signbuf-exact" else "signbuf-long"
+      match p with
+      | .none | .unknown => (s, withArms "panic" ["signbuf-invalid-policy"])
+      | _ =>
+        match create [] k len (toySig ks 0) p (some []) (some []) with
+        | .ok _ => (s, withArms s!"ok {ks}" [arm])
+        | .err e => (s, "err " ++ statusName e)
+        | .panic => (s, withArms "panic" [arm])
+    | _, _, _ => (s, "bad-op")
   | _ => (s, "bad-op")
 
 def driver : Driver :=
